@@ -332,6 +332,12 @@ func (r *XRecord) Serialise(l *core.Lane, st XStyle) []byte {
 		sb.WriteString("\xef\xbb\xbf<?xpacket begin='\xef\xbb\xbf' id='W5M0MpCehiHzreSzNTczkc9d'?>\n")
 	case 3:
 		n := f.Intn(700)
+		switch f.Intn(4) {
+		case 1:
+			n = 1530 + f.Intn(16) // around the parser's 1538-byte window
+		case 2:
+			n = 1538 + f.Intn(5000)
+		}
 		for i := 0; i < n; i++ {
 			sb.WriteByte(xmlSafe[f.Intn(len(xmlSafe))])
 		}
